@@ -16,6 +16,14 @@
 (*                 engine computes it; etid/ehash = what the engine really *)
 (*                 used as store address; slots = every store cell the     *)
 (*                 engine wrote for the query (column, discriminant, key)  *)
+(*  {"k":"value","run":r,"phase":"shared"|"reopen","ty":..,"key":..,       *)
+(*   "got_ty":..,"got_key":..,"tag":..,"executed":n}                       *)
+(*        the engine's answer to the query: every harness value names the  *)
+(*        (type, key) it was computed for and the run that computed it.    *)
+(*        shared: one engine executes all queries; reopen: an engine over  *)
+(*        the store that ANOTHER process wrote (executed = 0: answered     *)
+(*        from that store).  An answer computed for another query means    *)
+(*        two queries share a slot -> value_of_other_query.                *)
 (*  {"k":"end",..}                                                         *)
 (*                                                                         *)
 (* Admit (one step per record): the record must be one the specification   *)
@@ -29,11 +37,13 @@
 (*   ScanOwners  equal owners, different ids   -> *_unstable               *)
 (* namespaces: T type ids, Q query ids, S store slots.  All actions are    *)
 (* total; violations are collected in `viol` and written to env OUT.       *)
+(* (The position variable must not be called `i`: TLC then stops caching   *)
+(* the constant definitions of TypeId.tla that bind an `i`.)               *)
 (***************************************************************************)
 EXTENDS TypeIdJson, SequencesExt
 
-VARIABLES ph, i, viol, drift, ndrift, stats
-tvars == <<ph, i, viol, drift, ndrift, stats, cur, via>>
+VARIABLES ph, pos, viol, drift, ndrift, stats
+tvars == <<ph, pos, viol, drift, ndrift, stats, cur, via>>
 
 Rec == ndJsonDeserialize(IOEnv.TRACE)
 
@@ -56,15 +66,15 @@ KindOf(ns, what) ==
 V(kind, a, b, x) == [kind |-> kind, a |-> a, b |-> b, id |-> x]
 
 TInit ==
-    /\ ph = "admit" /\ i = 1 /\ viol = <<>> /\ drift = <<>> /\ ndrift = 0
-    /\ stats = [types |-> 0, queries |-> 0, ends |-> 0]
+    /\ ph = "admit" /\ pos = 1 /\ viol = <<>> /\ drift = <<>> /\ ndrift = 0
+    /\ stats = [types |-> 0, queries |-> 0, values |-> 0, reopened |-> 0, reused |-> 0, ends |-> 0]
     /\ cur = NoTerm /\ via = "trace"
 
-Ev == Rec[i]
+Ev == Rec[pos]
 
 Admit ==
-    /\ ph = "admit" /\ i <= Len(Rec)
-    /\ i' = i + 1 /\ ph' = ph
+    /\ ph = "admit" /\ pos <= Len(Rec)
+    /\ pos' = pos + 1 /\ ph' = ph
     /\ CASE Ev.k = "type" ->
               /\ stats' = [stats EXCEPT !.types = @ + 1]
               /\ viol' = IF <<Ev.term, Ev.tree>> \in SpecPairs THEN viol
@@ -78,42 +88,49 @@ Admit ==
                          ELSE Append(viol, V("query_id_not_engine_address", OwnerOf(Ev), Ev.etid \o ":" \o Ev.ehash,
                                              Ev.tid \o ":" \o Ev.hash))
               /\ UNCHANGED <<drift, ndrift>>
+         [] Ev.k = "value" ->
+              /\ stats' = [stats EXCEPT !.values = @ + 1,
+                                        !.reopened = @ + (IF Ev.phase = "reopen" THEN 1 ELSE 0),
+                                        !.reused = @ + (IF Ev.phase = "reopen" /\ Ev.executed = 0 THEN 1 ELSE 0)]
+              /\ viol' = IF Ev.got_ty = Ev.ty /\ Ev.got_key = Ev.key THEN viol
+                         ELSE Append(viol, V("value_of_other_query", OwnerOf(Ev), Ev.got_ty \o " " \o Ev.got_key, Ev.phase))
+              /\ UNCHANGED <<drift, ndrift>>
          [] OTHER ->
               /\ stats' = [stats EXCEPT !.ends = @ + 1]
               /\ UNCHANGED <<viol, drift, ndrift>>
     /\ UNCHANGED <<cur, via>>
 
 AdmitDone ==
-    /\ ph = "admit" /\ i > Len(Rec)
-    /\ ph' = "ids" /\ i' = 1
+    /\ ph = "admit" /\ pos > Len(Rec)
+    /\ ph' = "ids" /\ pos' = 1
     /\ UNCHANGED <<viol, drift, ndrift, stats, cur, via>>
 
 (* distinct types / (type, key) pairs -> distinct ids, over all runs *)
 ScanIds ==
-    /\ ph = "ids" /\ i < Len(ById)
-    /\ i' = i + 1 /\ ph' = ph
-    /\ viol' = IF ById[i][1] = ById[i + 1][1] /\ ById[i][2] = ById[i + 1][2]
-               THEN Append(viol, V(KindOf(ById[i][1], "collision"), ById[i][3], ById[i + 1][3], ById[i][2]))
+    /\ ph = "ids" /\ pos < Len(ById)
+    /\ pos' = pos + 1 /\ ph' = ph
+    /\ viol' = IF ById[pos][1] = ById[pos + 1][1] /\ ById[pos][2] = ById[pos + 1][2]
+               THEN Append(viol, V(KindOf(ById[pos][1], "collision"), ById[pos][3], ById[pos + 1][3], ById[pos][2]))
                ELSE viol
     /\ UNCHANGED <<drift, ndrift, stats, cur, via>>
 
 ScanIdsDone ==
-    /\ ph = "ids" /\ i >= Len(ById)
-    /\ ph' = "owners" /\ i' = 1
+    /\ ph = "ids" /\ pos >= Len(ById)
+    /\ ph' = "owners" /\ pos' = 1
     /\ UNCHANGED <<viol, drift, ndrift, stats, cur, via>>
 
 (* the same type / (type, key) -> the same id in every process *)
 ScanOwners ==
-    /\ ph = "owners" /\ i < Len(ByOwner)
-    /\ i' = i + 1 /\ ph' = ph
-    /\ viol' = IF ByOwner[i][1] = ByOwner[i + 1][1] /\ ByOwner[i][2] = ByOwner[i + 1][2]
-               THEN Append(viol, V(KindOf(ByOwner[i][1], "unstable"), ByOwner[i][2], ByOwner[i][3], ByOwner[i + 1][3]))
+    /\ ph = "owners" /\ pos < Len(ByOwner)
+    /\ pos' = pos + 1 /\ ph' = ph
+    /\ viol' = IF ByOwner[pos][1] = ByOwner[pos + 1][1] /\ ByOwner[pos][2] = ByOwner[pos + 1][2]
+               THEN Append(viol, V(KindOf(ByOwner[pos][1], "unstable"), ByOwner[pos][2], ByOwner[pos][3], ByOwner[pos + 1][3]))
                ELSE viol
     /\ UNCHANGED <<drift, ndrift, stats, cur, via>>
 
 Finish ==
-    /\ ph = "owners" /\ i >= Len(ByOwner)
-    /\ ph' = "done" /\ i' = i
+    /\ ph = "owners" /\ pos >= Len(ByOwner)
+    /\ ph' = "done" /\ pos' = pos
     /\ JsonSerialize(IOEnv.OUT, [viol |-> viol, drift |-> drift, ndrift |-> ndrift, stats |-> stats,
                                  records |-> Len(Rec), facts |-> Len(ById), universe |-> Cardinality(Universe),
                                  recorded_terms |-> Cardinality({Rec[k].term : k \in {x \in DOMAIN Rec : Rec[x].k = "type"}})])
